@@ -160,7 +160,7 @@ PROPS = {
     "C07": {
         "extra_props": ["C01gen"],
         "level": "translation_validation",
-        "rule": "150 generated coherent programs (one impl per trait and self-type constructor): 1-2 traits with an associated type (a quarter with a trait parameter), impls on "
+        "rule": "(half of the traits of family 1 declare TWO associated types and their impls list the `type X = ..;` items in random order; goals project either) 150 generated coherent programs (one impl per trait and self-type constructor): 1-2 traits with an associated type (a quarter with a trait parameter), impls on "
                 "nullary and unary structs whose values mention impl parameters, structs and scalars, some with where-clauses; 8 goals each: exists<U>{Normalize(<X as Tr>::A -> U)}, "
                 "closed X: Tr<A = Y>, exists<U>{X: Tr<A = U>}, forall<X>{exists<U>{Normalize(..)}}; both solvers, fresh instances; closed goals judged by judge-ground, goals with unknowns "
                 "by the C01 contract (judge-answer) on the Normalize/AliasEq clauses read off chalk's lowered Program; non-trivial = every judged answer",
